@@ -198,6 +198,7 @@ class ParserAI:
         self.discipline = {}    # violations of the save/lex alternation and of `current` provenance
         self.assert_calls = defaultdict(set)   # (fn, bb) -> set of (la, kind) at calls of ParserBase::assert
         self.call_la = defaultdict(set)  # (caller fn, bb, callee) -> la sets seen
+        self.token_log = None            # when a list: (fn, kinds) of every token consumption evaluated
 
     # ------------------------------------------------------------------ helpers
     def _true_set(self, fn):
@@ -891,6 +892,8 @@ class ParserAI:
                 out += cont(s1)
             rest = st.la - {"Eof"}
             if rest:
+                if self.token_log is not None:
+                    self.token_log.append((fn, rest))
                 s2 = st.copy()
                 s2.la = rest
                 self.note_progress(s2)
